@@ -1,8 +1,10 @@
 /-
   C05 — every feasible configuration terminates (no deadlock, no starvation).
 
-  The FULL statement is kept below.  It is FALSE of the code (known findings
-  K1: tiering above the 0.6 threshold, K2: two admissions in one step) — the
+  The FULL statement is kept below.  It is FALSE of the code (known finding
+  K1: tiering above the 0.6 threshold; K2: two admissions in one step, is
+  repaired by F14 — `C05_old_double_admission` keeps the old test,
+  `C05_double_admission_refused` states the repair) — the
   negation is proved with concrete witnesses, also replayed on the
   implementation.  What is proved (`…_partial`) removes, one by one, the
   blocking mechanisms the property names: the ingest reservation is exact and
@@ -43,15 +45,45 @@ theorem C05_neg_cold_never_returns (b : Buffer) (now : Nat) (d : Buffer.LoopDeci
     (h : b.loopDecide now = .ok d) : d.startCold2Hot = false :=
   cold_never_returns b now d hfull htot hd h
 
-/-- K2: two observations admitted in the same telescope block are both checked
-against the same list of available machines; the second provisioning raises. -/
-theorem C05_neg_double_admission :
+/-- K2, the OLD admission test (F14: renamed from `C05_neg_double_admission`; `checkIngestCapacity`
+with the default `reserved = 0` is the test as it was before the repair): two observations admitted
+in the same telescope block were both checked against the same list of available machines; the
+second provisioning raises. -/
+theorem C05_old_double_admission :
     let c := Cluster.init [0, 1, 2]
     c.checkIngestCapacity 2 4 = true ∧
     (c.provisionIngest 2 0).2.1 = none ∧
     ((c.provisionIngest 2 0).1.provisionIngest 2 1).2.1 = some Err.runtime := by
   intro c
   decide
+
+/-- F14, the repaired test on the same witness: after the first admission the reservation counter
+is 2 while the ingest pool is still empty, so two of the three machines are promised — a second
+observation asking for 2 is refused, one asking for 1 is still accepted. -/
+theorem C05_double_admission_refused_witness :
+    let c := Cluster.init [0, 1, 2]
+    c.checkIngestCapacity 2 4 2 = false ∧ c.checkIngestCapacity 1 4 2 = true := by
+  intro c
+  decide
+
+/-- F14: K2 is closed at the admission test.  After an admission of demand `d₁` that raised the
+reservation counter from `prov` to `prov + d₁` (the counter covering the ingest pool: `hp`), a second
+check in the same pass (same cluster, `reserved = prov + d₁`) fails whenever the machines available
+do not cover both demands. -/
+theorem C05_double_admission_refused (c : Cluster) (mx d₁ d₂ : Nat) (prov : Int)
+    (hp : (c.ingest.length : Int) ≤ prov) (hd : c.available.length < d₁ + d₂) :
+    c.checkIngestCapacity d₂ mx (prov + d₁) = false :=
+  double_admission_refused c mx d₁ d₂ prov hp hd
+
+/-- F14, the same at the scheduler's test (`Scheduler.check_ingest_capacity`): after `o₁` is
+accepted, the test of `o₂` in the state it returned refuses `o₂` and changes nothing. -/
+theorem C05_double_admission_refused_sched (s s1 : Sys) (o1 o2 : Obs)
+    (h1 : s.checkIngestCapacity o1 = .ok (s1, true))
+    (hp : (s.cl.ingest.length : Int) ≤ s.provIngest)
+    (hd : s.cl.available.length < o1.ingestDemand + o2.ingestDemand) :
+    s1.cl.checkIngestCapacity o2.ingestDemand s1.maxIngest s1.provIngest = false ∧
+    ∀ s2 b, s1.checkIngestCapacity o2 = .ok (s2, b) → b = false ∧ s2 = s1 :=
+  double_admission_refused_sys s s1 o1 o2 h1 hp hd
 
 /-- the negation of the full statement (witness: one observation of 8 × 10 on a
 hot buffer of 100 — feasible, crashes at t = 7 with IndexError) -/
